@@ -7,6 +7,8 @@ import (
 	"time"
 
 	"github.com/form3tech-oss/f1/v2/internal/trigger/api"
+	"github.com/form3tech-oss/f1/v2/internal/trigger/constant"
+	"github.com/form3tech-oss/f1/v2/internal/trigger/rate"
 )
 
 type scripted struct {
@@ -54,6 +56,41 @@ func init() {
 			outs[i] = fn(t0.Add(time.Duration(i)*iv + off))
 		}
 		return fmt.Sprintf("%d %d %s", int64(iv), rates.calls, intsTok(outs))
+	})
+	// pipeline <rate hex> <jn> <jd> <dist hex> <cycles> — the composed rate function of a constant trigger as the
+	// builders assemble it (ParseRate -> WithJitter(jn/jd percent) -> NewDistribution), called for <cycles> whole
+	// cycles -> `<intervalNs> <calls> <total> <min> <max>` | err
+	register("pipeline", func(a []string) string {
+		jit := float64(atoi(a[1])) / float64(atoi(a[2]))
+		r, err := constant.CalculateConstantRate(jit, unhex(a[0]), unhex(a[3]))
+		if err != nil {
+			return "err"
+		}
+		cnt, unit, err := rate.ParseRate(unhex(a[0]))
+		if err != nil {
+			return "err"
+		}
+		_ = cnt
+		n := 1
+		if r.IterationDuration < unit {
+			n = int(unit / r.IterationDuration)
+		}
+		cycles := atoi(a[4])
+		total, mn, mx := 0, 0, 0
+		t := time.Unix(1700000000, 0)
+		calls := cycles * n
+		for i := 0; i < calls; i++ {
+			v := r.Rate(t)
+			t = t.Add(r.IterationDuration)
+			total += v
+			if i == 0 || v < mn {
+				mn = v
+			}
+			if i == 0 || v > mx {
+				mx = v
+			}
+		}
+		return fmt.Sprintf("%d %d %d %d %d", int64(r.IterationDuration), calls, total, mn, mx)
 	})
 	// distsum regular <intervalNs> <cycles> <rates>  ->  <evals> <sum:min:max,…>
 	register("distsum", func(a []string) string {
